@@ -138,6 +138,40 @@ class CCtx:
     def fact(self, f):
         self.path.sink.add(f)
 
+    def lemma(self, name, clause, then=None, level="property"):
+        """Prove `clause` now (recorded as an obligation); afterwards `then` (a fact that
+        follows from it, e.g. the conclusion of an induction whose base/step were proved)
+        is available to later obligations.  A failed lemma is a failed obligation."""
+        ob = prove_clause(self.path, (self.tag + "/" if getattr(self, "tag", None) else "") + name, clause, level=level)
+        if then is not None:
+            assume_clause(self.path, then)
+        return ob
+
+    def apply_lemma(self, name, nvars, body, instances, kinds=None):
+        """Generic arithmetic lemma + explicit instantiation (the solver does not find
+        nonlinear steps unprompted).  `body(*vars)` is proved once for fresh real (or int)
+        variables -- a universally valid statement, recorded as an obligation -- and then
+        `body(*inst)` is added as a fact for each instance tuple.  Instances are terms, so
+        the added facts are consequences of the proved lemma, never assumptions."""
+        kinds = kinds or ["real"] * nvars
+        key = ("lemma", name)
+        if key not in self.path.ghosts:
+            vs = []
+            for i, k in enumerate(kinds):
+                nm = V.fresh_name("L_%s_%d" % (name.replace("/", "_"), i))
+                vs.append(V.finite_real(z3.Real(nm)) if k == "real" else z3.Int(nm))
+            ob = self.path.prove_isolated((self.tag + "/" if getattr(self, "tag", None) else "") + "lemma/" + name, body(*vs), level="helper")
+            self.path.ghosts[key] = ob.status
+        for inst in instances:
+            f = body(*inst)
+            if f is True:
+                continue
+            self.path.sink.add(V.zbool(f) if not isinstance(f, bool) else z3.BoolVal(f))
+
+    @property
+    def symbolic(self):
+        return self.mode != "concrete"
+
     # -- helpers -----------------------------------------------------------------------
     def forall(self, bounds, fn, lower=None):
         return Forall(bounds, fn, lower)
@@ -207,10 +241,10 @@ class Contract:
         c = CCtx(path, mode="call")
         pre = self.requires(c, **bound)
         for i, (name, cond) in enumerate(_named(pre)):
-            ob = path.prove("%s/call-pre/%s" % (self.target, name), cond, level="helper")
+            ob = prove_clause(path, "%s/call-pre/%s" % (self.target, name), cond, level="helper")
             if ob.status != "proved":
                 ob.detail = "precondition of %s not established at a call site" % self.target
-            path.assume(V.zbool(cond) if not isinstance(cond, bool) else cond)
+            assume_clause(path, cond)
         if self.trusted:
             path.assumptions_used.add("assumed_repo_contract(%s)" % self.target)
         r = self.spec(c, **bound)
@@ -524,6 +558,7 @@ def verify_contract(loader, registry, con, dim_override=None, observed=False, in
             tag = "%s%s" % (con.target, "" if case is None else "[%s]" % (case,))
             try:
                 c = CCtx(path, dim_override=dim_override)
+                c.tag = tag
                 try:
                     args = con.inputs(c, case)
                     for name, cond in _named(con.requires(c, **args)):
@@ -560,7 +595,8 @@ def verify_contract(loader, registry, con, dim_override=None, observed=False, in
                     if con.pure:
                         clauses.extend(frame_clauses(snaps, getattr(con, "modifies", ())))
                     for name, cl in clauses:
-                        prove_clause(path, "%s/%s" % (tag, name), cl, level=con.level)
+                        lvl = "property" if (con.level == "property" or name.startswith("PL/")) else con.level
+                        prove_clause(path, "%s/%s" % (tag, name), cl, level=lvl)
             except PathAbort:
                 pass
             except Unsupported as e:
